@@ -126,6 +126,10 @@ func builtinGlobalParseInt(call FunctionCall) Value {
 		return NaNValue()
 	}
 	if negative {
+		if value == 0 {
+			// sign * 0 is -0 (ECMA 262 15.1.2.2 step 16); an int64 cannot hold it.
+			return float64Value(math.Copysign(0, -1))
+		}
 		value *= -1
 	}
 
